@@ -11,6 +11,14 @@ Definition semi : ascii := ";"%char.
 Definition slash : ascii := "/"%char.
 Definition eqc : ascii := "="%char.
 
+(** linear splitter ([PyStr.split_c] reverses with the quadratic extracted [rev]) *)
+Fixpoint split_acc (ch : ascii) (cur : str) (s : str) : list str :=
+  match s with
+  | [] => [rev_append cur []]
+  | c :: r => if ceqb c ch then rev_append cur [] :: split_acc ch [] r else split_acc ch (c :: cur) r
+  end.
+Definition split_c (ch : ascii) (s : str) : list str := split_acc ch [] s.
+Definition fields (s : str) : list str := split_c tab s.
 Definition items (sep : ascii) (s : str) : list str := match s with [] => [] | _ => split_c sep s end.
 
 Definition q_of_str (s : str) : Q :=
